@@ -100,6 +100,24 @@ pub fn generate(g: &mut Gen, thorough: bool) {
         let ellps = *g.rng.pick(&proj::ELLPS);
         let geo = geo_points(&mut g.rng, 8);
         case(g, "default", &format!("cart ellps={ellps}"), "F", "geo3", 1e-6, &geo, "cart", true);
+        // millimetres to metres from the rotation axis, on either hemisphere (the inverse has a polar shortcut)
+        let axis: Vec<[f64; 4]> = [1e-6, 3e-8, 1e-9, 5e-10, 2e-10, 1e-10, 1e-11, 1e-13]
+            .iter()
+            .map(|o| {
+                let s = if g.rng.chance(1, 2) { 1.0 } else { -1.0 };
+                [g.rng.uniform(-3.1, 3.1), s * (std::f64::consts::FRAC_PI_2 - o), g.rng.uniform(-1000.0, 9000.0), 2000.0]
+            })
+            .collect();
+        case(g, "default", &format!("cart ellps={ellps}"), "F", "geo3", 1e-6, &axis, "cart-next-to-the-axis", true);
+        let axis_xyz: Vec<[f64; 4]> = [3.0, 4e-1, 6e-3, 3e-3, 1e-3, 2e-4, 1e-5, 1e-7]
+            .iter()
+            .map(|d: &f64| {
+                let s = if g.rng.chance(1, 2) { 1.0 } else { -1.0 };
+                let az = g.rng.uniform(-3.1, 3.1);
+                [d * az.cos(), d * az.sin(), s * g.rng.uniform(6.35e6, 6.37e6), 2000.0]
+            })
+            .collect();
+        case(g, "default", &format!("cart ellps={ellps}"), "I", "cart", 1e-6, &axis_xyz, "cart-next-to-the-axis-inv-first", true);
         let high: Vec<[f64; 4]> = geo.iter().map(|p| [p[0], p[1], g.rng.uniform(1e5, 1e7), p[3]]).collect();
         case(g, "default", &format!("cart ellps={ellps}"), "F", "geo3", 1e-3, &high, "cart-high", true);
         let h = c07::random_set(&mut g.rng);
